@@ -147,6 +147,8 @@ def attribute(tokeniser: 'Tokeniser') -> GenericAttribute:
         code_int: int = int(code, 16)
     except ValueError:
         raise ValueError(f"'{code}' is not a valid attribute code\n  Must be hexadecimal (e.g., 0x01)") from None
+    if code_int > 0xFF:
+        raise ValueError(f"'{code}' is not a valid attribute code\n  Must fit one octet (0x00 to 0xFF)")
 
     flag = tokeniser().lower()
     if not flag.startswith('0x'):
@@ -155,6 +157,8 @@ def attribute(tokeniser: 'Tokeniser') -> GenericAttribute:
         flag_int: int = int(flag, 16)
     except ValueError:
         raise ValueError(f"'{flag}' is not a valid attribute flag\n  Must be hexadecimal (e.g., 0x40)") from None
+    if flag_int > 0xFF:
+        raise ValueError(f"'{flag}' is not a valid attribute flag\n  Must fit one octet (0x00 to 0xFF)")
 
     data = tokeniser().lower()
     if not data.startswith('0x'):
